@@ -313,7 +313,7 @@ def receive_leaves(ctx):
     key = id(ctx.facts)
     if key not in _rcache:
         fn = ctx.facts.fn(READ_BYTES)
-        _rcache[key] = (fn, PathEnum(fn, ctx.facts, inline_also=lambda p, a: p == RECV).run())
+        _rcache[key] = (fn, PathEnum(fn, ctx.facts, lower=True, inline_also=lambda p, a: p == RECV).run())
     ctx.touched(READ_BYTES)
     if ctx.facts.has_fn(RECV):
         ctx.touched(RECV)
